@@ -57,6 +57,11 @@ type Case struct {
 	Ops     [][]Op `json:"ops"`
 	// Script "early-take": two concurrent calls on a 2-slot ring while the writer sits in its flush
 	// delay, and one proactive sunsubscribe push 10 ms later (what a cluster sends on slot migration).
+	//
+	// Script "flow-race" (flow buffer, synchronous phase): caller 1 runs synchronously; caller 2 queues behind it
+	// and gives up in PutOne on a cancelled context at the moment caller 1 leaves the synchronous path (held at the
+	// gap hooks "do-put" / "do-bg-after"); caller 3 arrives before caller 1 calls background().  Caller 3 must not be
+	// on the connection synchronously when the background workers start.
 	Script string `json:"script,omitempty"`
 }
 
@@ -66,6 +71,10 @@ func genCase(r *gen.Rand, i int) any {
 		// replies and the EXEC reply of that flight; a proactive sunsubscribe push arrives in that window
 		return Case{Script: "push-mid-cache", Queue: gen.Pick(r, []string{"ring", "flowbuffer"}), Ring: gen.Pick(r, []int{1, 3, 0}), Mux: -1,
 			Always: r.Bool(), Cache: true, Ops: [][]Op{{{Kind: "cache", Ctx: "bg"}}, {{Kind: "cachejoin", Ctx: "bg"}}}}
+	}
+	if i%40 == 17 {
+		return Case{Script: "flow-race", Queue: "flowbuffer", Ring: gen.Pick(r, []int{1, 3, 0}), Mux: -1,
+			Ops: [][]Op{{{Kind: "echo", Ctx: "bg"}}, {{Kind: "echo", Ctx: "script"}}, {{Kind: "echo", Ctx: "bg"}}}}
 	}
 	if i%40 == 7 {
 		return Case{Script: "early-take", Queue: "ring", Ring: 1, Mux: -1, Always: true, FlushUs: 300000, Cache: r.Bool(),
@@ -163,6 +172,16 @@ func run(ci any) (res obs.Result) {
 	if c.Script != "" {
 		n = 4
 	}
+	if c.Script == "flow-race" {
+		// PutOne chooses at random between the free position and the done context: repeat until it gave up
+		for i := 0; i < 12; i++ {
+			res = runOnce(c)
+			if res.Oracle != "" || res.Nontrivial {
+				return res
+			}
+		}
+		return res
+	}
 	for i := 0; i < n; i++ {
 		res = runOnce(c)
 		if res.Oracle != "" {
@@ -170,6 +189,113 @@ func run(ci any) (res obs.Result) {
 		}
 	}
 	return res
+}
+
+// flowRace is the controller of the script "flow-race".
+type flowRace struct {
+	gate            [3]chan struct{} // caller t starts when gate[t] is closed
+	opDone          [3]chan struct{}
+	atPut, relPut   chan struct{}
+	atBg, relBg     chan struct{}
+	nPut, nBg       atomic.Int32
+	cancel2         atomic.Value // context.CancelFunc of caller 2
+	echoes          atomic.Int32 // ECHO commands the server has received since the script was armed
+	void            bool         // the interleaving was not reached (PutOne took the free position, or a time-out)
+	violation       string
+	relPutO, relBgO sync.Once
+}
+
+func newFlowRace() *flowRace {
+	f := &flowRace{atPut: make(chan struct{}), relPut: make(chan struct{}), atBg: make(chan struct{}), relBg: make(chan struct{})}
+	for i := range f.gate {
+		f.gate[i], f.opDone[i] = make(chan struct{}), make(chan struct{})
+	}
+	return f
+}
+
+func (f *flowRace) hook(site string) {
+	switch site {
+	case "do-put":
+		if f.nPut.Add(1) == 1 {
+			close(f.atPut)
+			<-f.relPut
+		}
+	case "do-bg-after":
+		if f.nBg.Add(1) == 1 {
+			close(f.atBg)
+			<-f.relBg
+		}
+	}
+}
+
+func (f *flowRace) releaseAll() {
+	f.relPutO.Do(func() { close(f.relPut) })
+	f.relBgO.Do(func() { close(f.relBg) })
+	for i := range f.gate {
+		select {
+		case <-f.gate[i]:
+		default:
+			close(f.gate[i])
+		}
+	}
+}
+
+func waitFor(ch chan struct{}, d time.Duration) bool {
+	select {
+	case <-ch:
+		return true
+	case <-time.After(d):
+		return false
+	}
+}
+
+// control drives the interleaving; it returns when every caller has been released.
+func (f *flowRace) control(cl rueidis.Client) {
+	defer f.releaseAll()
+	close(f.gate[0])
+	for i := 0; f.echoes.Load() < 1; i++ { // caller 1 is on the connection, its reply is delayed
+		if i > 2000 {
+			f.void = true
+			return
+		}
+		time.Sleep(time.Millisecond)
+	}
+	close(f.gate[1])
+	if !waitFor(f.atPut, 2*time.Second) || !waitFor(f.atBg, 2*time.Second) {
+		f.void = true
+		return
+	}
+	_, w0, _ := rueidis.VerifPipeCounters(cl)
+	if cf, ok := f.cancel2.Load().(context.CancelFunc); ok {
+		cf()
+	}
+	f.relPutO.Do(func() { close(f.relPut) })
+	if !waitFor(f.opDone[1], 2*time.Second) {
+		f.void = true
+		return
+	}
+	time.Sleep(2 * time.Millisecond)
+	if _, w1, _ := rueidis.VerifPipeCounters(cl); w1 != w0-1 {
+		f.void = true // PutOne took the free position: caller 2 is queued, its count stays until its reply is drained
+		return
+	}
+	// caller 2 has left through the PutOne error path; caller 1 has not called background() yet
+	close(f.gate[2])
+	reached := false
+	for i := 0; i < 30 && !reached; i++ {
+		time.Sleep(time.Millisecond)
+		reached = f.echoes.Load() >= 2
+	}
+	f.relBgO.Do(func() { close(f.relBg) })
+	time.Sleep(10 * time.Millisecond)
+	st, w, bg := rueidis.VerifPipeCounters(cl)
+	select {
+	case <-f.opDone[2]:
+	default:
+		if reached && bg == 1 {
+			f.violation = fmt.Sprintf("caller 3 is using the connection synchronously (its command reached the server before background() was called, its reply is still due) while the background workers run on the same connection (state=%d waits=%d bgState=%d)", st, w, bg)
+		}
+	}
 }
 
 func runOnce(c Case) (res obs.Result) {
@@ -262,6 +388,10 @@ func runOnce(c Case) (res obs.Result) {
 	}
 
 	start := make(chan struct{})
+	var race *flowRace
+	if c.Script == "flow-race" {
+		race = newFlowRace()
+	}
 	if c.Script == "push-mid-cache" {
 		s.Fault = func(fc *fakeredis.Conn, cseq int, argv []string) fakeredis.Action {
 			if up(argv[0]) == "EXEC" {
@@ -305,6 +435,10 @@ func runOnce(c Case) (res obs.Result) {
 		go func(t int) {
 			defer wg.Done()
 			<-start
+			if race != nil && t < len(race.gate) {
+				<-race.gate[t]
+				defer close(race.opDone[t])
+			}
 			var myChans []string
 			for _, op := range c.Ops[t] {
 				id := int(atomic.AddInt32(&nextID, 1))
@@ -326,6 +460,11 @@ func runOnce(c Case) (res obs.Result) {
 				case "done":
 					ctx, cancel = context.WithCancel(ctx)
 					cancel()
+				case "script":
+					ctx, cancel = context.WithCancel(ctx)
+					if race != nil {
+						race.cancel2.Store(cancel)
+					}
 				}
 				call := &pipe.Call{ID: id}
 				is.call = call
@@ -457,6 +596,25 @@ func runOnce(c Case) (res obs.Result) {
 	}
 	done := make(chan struct{})
 	go func() { wg.Wait(); close(done) }()
+	if race != nil {
+		s.Fault = func(fc *fakeredis.Conn, cseq int, argv []string) fakeredis.Action {
+			if up(argv[0]) == "ECHO" {
+				if race.echoes.Add(1) == 1 {
+					return fakeredis.Action{DelayReply: 30 * time.Millisecond}
+				}
+				return fakeredis.Action{DelayReply: 60 * time.Millisecond}
+			}
+			return fakeredis.Action{}
+		}
+		rueidis.VerifPipeGapFn.Store(race.hook)
+		defer rueidis.VerifPipeGapFn.Store(func(string) {})
+		pushWg.Add(1)
+		go func() {
+			defer pushWg.Done()
+			<-start
+			race.control(cl)
+		}()
+	}
 	if c.Script == "early-take" {
 		// prime: the writer's flush delay counts from the moment it last found the queue empty
 		id := int(atomic.AddInt32(&nextID, 1))
@@ -475,6 +633,9 @@ func runOnce(c Case) (res obs.Result) {
 		hung = true
 	}
 	close(stopPush)
+	if race != nil {
+		race.releaseAll()
+	}
 	if hung {
 		if os.Getenv("VERIF_PIPE_DUMP") != "" {
 			buf := make([]byte, 1<<20)
@@ -553,6 +714,10 @@ func runOnce(c Case) (res obs.Result) {
 			}
 		}
 	}
+	if race != nil && race.violation != "" {
+		fails = append([]string{race.violation}, fails...)
+		res.Site, res.Class = "pipe.go:Do", "sync-and-background"
+	}
 	if len(fails) > 0 {
 		res.Oracle = strings.Join(fails[:min(len(fails), 4)], "; ")
 	}
@@ -599,6 +764,9 @@ func runOnce(c Case) (res obs.Result) {
 	}
 	res.Coq = "(CRun " + obs.List(conns) + ")"
 	res.Nontrivial = len(c.Ops) >= 2 && len(all) >= 2
+	if race != nil {
+		res.Nontrivial = !race.void
+	}
 	res.Sig = fmt.Sprint(res.Kind, c.Ring, c.Cache, c.FlushUs, c.Pushes, len(c.Ops), kinds)
 	res.Obs = map[string]any{"calls": len(all), "failed_with_ctx_error": ncancelled, "connections": len(conns), "slots": nslots, "frames": nframes, "kinds": kinds}
 	return
